@@ -13,6 +13,7 @@ import traceback
 import z3
 
 from . import symx
+from . import stubs  # noqa: F401  (installs the sequential trim_zeros)
 
 VERIF = os.path.dirname(os.path.dirname(os.path.abspath(__file__)))
 REPO = os.environ.get('VERIF_REPO', '/repo')
@@ -60,6 +61,8 @@ class Report:
         self.cvc5_checked = 0
         self.cvc5_disagree = []
         self._seen_cls = set()
+        self._failed_cls = {}
+        self.sat_same_class = 0
 
     # -- bookkeeping ---------------------------------------------------
     def path(self, ctx, nontrivial=None):
@@ -71,6 +74,22 @@ class Report:
             nontrivial = any(d[1] for d in ctx.decisions[:ctx.pos]) or ctx.pos > 0
         if nontrivial:
             self.nontrivial += 1
+        self._progress()
+
+    def _send(self, kind, payload):
+        conn = getattr(self, '_conn', None)
+        if conn is not None:
+            try:
+                conn.send((kind, payload))
+            except Exception:
+                pass
+
+    def _progress(self):
+        now = time.time()
+        if now - getattr(self, '_last_progress', 0) > 2.0:
+            self._last_progress = now
+            self._send('progress', {k: getattr(self, k) for k in (
+                'paths', 'nontrivial', 'obligations', 'discharged', 'witnesses', 'solver_time', 'feas_queries')})
 
     def sample(self, obj):
         if len(self.samples) < 4:
@@ -154,10 +173,17 @@ class Report:
                 return 'sat'
             if c is None:
                 continue
+            cls = c.get('cls', name)
+            if cls in self._seen_cls:
+                self.sat_same_class += 1
+                return 'sat'
+            if self._failed_cls.get(cls, 0) >= 4:
+                break
             ok, out = self.replay(name, c)
+            if not ok:
+                self._failed_cls[cls] = self._failed_cls.get(cls, 0) + 1
             if ok:
                 return 'sat'
-            last = (c, out)
             # block this model's point on the named inputs (coarsely)
             try:
                 for d in mm.decls():
@@ -166,8 +192,7 @@ class Report:
                         break
             except Exception:
                 pass
-        self.spurious.append({'ob': name, 'why': 'sat but no model reproduced',
-                              'inputs': _short(last[0].get('inputs')) if 'last' in dir() else None})
+        self.spurious.append({'ob': name, 'why': 'sat but no model reproduced'})
         return 'sat'
 
     def replay(self, name, c):
@@ -190,9 +215,11 @@ class Report:
             cls = c.get('cls', name)
             if cls not in self._seen_cls:
                 self._seen_cls.add(cls)
-                self.cex.append({'ob': name, 'cls': cls, 'replay': fn,
-                                 'inputs': _short(c.get('inputs')),
-                                 'output': out.strip()[-400:]})
+                rec = {'ob': name, 'cls': cls, 'replay': fn,
+                       'inputs': _short(c.get('inputs')),
+                       'output': out.strip()[-400:]}
+                self.cex.append(rec)
+                self._send('cex', rec)
             return True, out
         os.remove(tmp)
         if code not in (0, 1):
@@ -269,12 +296,15 @@ def _start_trace():
     mon.set_events(tid, mon.events.PY_START)
 
 
-def _run_family(args):
+def _run_family(args, conn):
     prop, name, modname, fname, kw, tier, seed = args
     t0 = time.time()
     R = Report(prop, name, tier)
+    R._conn = conn
     try:
         _start_trace()
+        symx.OPTS['family_budget_s'] = float(os.environ.get(
+            'VERIF_FAMILY_BUDGET_S', '240' if tier == 'quick' else '2400'))
         import importlib
         mod = importlib.import_module(modname)
         fn = getattr(mod, fname)
@@ -287,6 +317,81 @@ def _run_family(args):
     out = R.result()
     out['wall_s'] = time.time() - t0
     out['functions'] = sorted(_entered)
+    try:
+        conn.send(('done', out))
+        conn.close()
+    except Exception:
+        pass
+
+
+def _schedule(tasks, jobs, tier):
+    """own process pool with a HARD wall limit per family (z3 does not always
+    honour its timeout): a family that overruns is killed; what it streamed so
+    far (confirmed counterexamples, counters) is kept and it is reported as
+    incomplete, never as success."""
+    ctxm = mp.get_context('fork')
+    budget = float(os.environ.get('VERIF_FAMILY_BUDGET_S', '240' if tier == 'quick' else '2400'))
+    hard = budget * 1.5 + 60
+    pending = list(tasks)
+    running = []   # (proc, conn, args, t0, partial)
+    results = []
+    while pending or running:
+        while pending and len(running) < jobs:
+            a = pending.pop(0)
+            pc, cc = ctxm.Pipe(duplex=False)
+            p = ctxm.Process(target=_run_family, args=(a, cc), daemon=True)
+            p.start()
+            cc.close()
+            running.append([p, pc, a, time.time(), {'cex': [], 'progress': None}])
+        time.sleep(0.05)
+        for item in list(running):
+            p, conn, a, t0, part = item
+            done = None
+            try:
+                while conn.poll():
+                    kind, payload = conn.recv()
+                    if kind == 'cex':
+                        part['cex'].append(payload)
+                    elif kind == 'progress':
+                        part['progress'] = payload
+                    elif kind == 'done':
+                        done = payload
+            except (EOFError, OSError):
+                if not p.is_alive() and done is None:
+                    done = _partial_result(a, part, time.time() - t0,
+                                           'worker died without a result (exit code %s)' % p.exitcode, True)
+            if done is None and time.time() - t0 > hard:
+                p.terminate()
+                p.join(5)
+                if p.is_alive():
+                    p.kill()
+                done = _partial_result(a, part, time.time() - t0,
+                                       'killed after %.0fs (hard family limit)' % (time.time() - t0), False)
+            if done is not None:
+                p.join(5)
+                running.remove(item)
+                results.append(done)
+                r = done
+                print('  [%s] %-28s paths=%-5d ob=%-5d ok=%-5d inc=%-3d cex=%d spurious=%d err=%d  %.1fs%s' % (
+                    a[0], r['family'], r['paths'], r['obligations'], r['discharged'],
+                    len(r['inconclusive']), len(r['cex']), len(r['spurious']),
+                    len(r['errors']), r['wall_s'], '  INCOMPLETE' if r['incomplete'] else ''), flush=True)
+    return results
+
+
+def _partial_result(a, part, wall, why, is_error):
+    R = Report(a[0], a[1], a[5])
+    out = R.result()
+    pr = part.get('progress') or {}
+    for k in ('paths', 'nontrivial', 'obligations', 'discharged', 'witnesses', 'solver_time', 'feas_queries'):
+        if k in pr:
+            out[k] = pr[k]
+    out['cex'] = part['cex']
+    out['incomplete'] = ['%s: %s' % (a[1], why)]
+    if is_error:
+        out['errors'] = ['%s: %s' % (a[1], why)]
+    out['wall_s'] = wall
+    out['functions'] = []
     return out
 
 
@@ -324,15 +429,7 @@ def run_property(prop, tier, seed, families, meta, jobs=None):
     # deterministic schedule order depends on the seed only
     import random
     random.Random(seed).shuffle(tasks)
-    ctxm = mp.get_context('fork')
-    results = []
-    with ctxm.Pool(min(jobs, max(1, len(tasks))), maxtasksperchild=1) as pool:
-        for r in pool.imap_unordered(_run_family, tasks, chunksize=1):
-            results.append(r)
-            print('  [%s] %-28s paths=%-5d ob=%-5d ok=%-5d inc=%-3d cex=%d spurious=%d err=%d  %.1fs' % (
-                prop, r['family'], r['paths'], r['obligations'], r['discharged'],
-                len(r['inconclusive']), len(r['cex']), len(r['spurious']),
-                len(r['errors']), r['wall_s']), flush=True)
+    results = _schedule(tasks, jobs, tier)
     results.sort(key=lambda r: r['family'])
     known, fixed = load_findings()
     violations, knowns, harness = [], [], []
@@ -357,6 +454,8 @@ def run_property(prop, tier, seed, families, meta, jobs=None):
             harness.append('%s: cvc5 disagrees with z3 on %s' % (r['family'], v))
         if r['obligations'] > 0 and r['discharged'] == 0 and not r['cex'] and not r['spurious']:
             harness.append('%s: every obligation inconclusive' % r['family'])
+        if r['incomplete'] and not r['cex'] and r['discharged'] == 0:
+            harness.append('%s: family produced nothing before it was cut off: %s' % (r['family'], r['incomplete']))
         if r['obligations'] == 0 and not r['errors'] and not r['incomplete']:
             harness.append('%s: no obligation reached' % r['family'])
     tot = lambda k: sum(r[k] for r in results)
